@@ -1867,6 +1867,22 @@ def rawRun (pr : Params) (dictBuf : Nat) (preset : Array Nat) (cap : Nat) (d0 : 
   ((loopProg pr dictBuf (cap + 1) none Coder.init (presetUsedOf preset dictBuf) [] 0).decRun
     (Array.replicate (numProbs pr.lc pr.lp) PROB_INIT) d0).1
 
+/-- `rawFinish` answers `.capped` only for the model's own stop reason -/
+theorem rawFinish_capped {presetSize : Nat} {size : Option Nat} {len : Nat} {r : LoopRes} {d : Dec}
+    (h : rawFinish presetSize size len r d = .capped) : r.stop = .fuel := by
+  unfold rawFinish at h
+  rcases r with ⟨stop, coder, hist, parse, em⟩
+  cases stop <;> simp only [Stop.isRepeatErr, Bool.false_eq_true, if_false, if_true] at h
+  · split at h <;> cases h
+  · split at h
+    · cases h
+    · cases size with
+      | some n => cases h
+      | none => simp only at h; split at h <;> cases h
+  · split at h <;> cases h
+  · split at h <;> cases h
+  · rfl
+
 /-- **P2 (LZMA).**  `decodeRaw` answers `.capped` only when no size is declared, and then the symbol loop
 really produced MORE than `cap` bytes; with a declared size it never answers `.capped`: the model's fuel
 (`n + 1` symbols for `n` bytes) cannot run out. -/
@@ -1886,22 +1902,16 @@ theorem decodeRaw_capped (pr : Params) (dictBuf : Nat) (preset : Array Nat) (siz
       · cases h
       · rename_i d0 hinit
         simp only [] at h
-        split at h
-        · rename_i n
+        have hstop := rawFinish_capped h
+        cases size with
+        | some n =>
           exfalso
-          split at h
-          · cases h
-          · split at h <;> try (cases h; done)
-            rename_i hstop
-            exact loop_no_fuel_stop pr dictBuf n (n + 1) (Nat.lt_succ_self _) _ _ _ _ _ _ hstop
-        · split at h
-          · cases h
-          · split at h <;> try (cases h; done)
-            rename_i hstop
-            have := loop_fuel_means_cap pr dictBuf cap Coder.init (presetUsedOf preset dictBuf)
-              (Array.replicate (numProbs pr.lc pr.lp) PROB_INIT) d0
-            simp only [] at this
-            exact ⟨rfl, d0, hinit, hstop, (this hstop).1, (this hstop).2⟩
+          exact loop_no_fuel_stop pr dictBuf n (n + 1) (Nat.lt_succ_self _) _ _ _ _ _ _ hstop
+        | none =>
+          have := loop_fuel_means_cap pr dictBuf cap Coder.init (presetUsedOf preset dictBuf)
+            (Array.replicate (numProbs pr.lc pr.lp) PROB_INIT) d0
+          simp only [] at this
+          exact ⟨rfl, d0, hinit, hstop, (this hstop).1, (this hstop).2⟩
 
 theorem decodeRaw_sized_not_capped (pr : Params) (dictBuf : Nat) (preset : Array Nat) (n : Nat)
     (input : List Nat) (cap : Nat) : decodeRaw pr dictBuf preset (some n) input cap ≠ .capped := by
